@@ -466,7 +466,11 @@ func (s *Store) readRootsScan(defaultToEmpty bool) (err error) {
 		if err != nil {
 			return err
 		}
-		if err := s.checkAndReadRoots(offset, length, rootsEnd); err == nil {
+		ok, err := s.checkAndReadRoots(offset, length, rootsEnd)
+		if err != nil {
+			return err // The file failed; that says nothing about the roots.
+		}
+		if ok {
 			return nil
 		}
 		atomic.AddInt64(&s.size, -1) // Roots were wrong, so keep scanning.
@@ -507,19 +511,21 @@ func (s *Store) readRootsEnd(rootsEnd []byte) (int64, uint32, error) {
 	return offset, length, nil
 }
 
-func (s *Store) checkAndReadRoots(offset int64, length uint32, rootsEnd []byte) error {
+// checkAndReadRoots reports whether valid roots were found (and loaded) at
+// the given location; the error is only for failures of the file itself.
+func (s *Store) checkAndReadRoots(offset int64, length uint32, rootsEnd []byte) (bool, error) {
 	if offset >= 0 && offset < atomic.LoadInt64(&s.size)-int64(rootsLen) &&
 		length == uint32(atomic.LoadInt64(&s.size)-offset) {
 		data := make([]byte, atomic.LoadInt64(&s.size)-offset-int64(len(rootsEnd)))
 		if _, err := s.file.ReadAt(data, offset); err != nil {
-			return err
+			return false, err
 		}
 		if bytes.Equal(MagicBeg, data[:len(MagicBeg)]) &&
 			bytes.Equal(MagicBeg, data[len(MagicBeg):2*len(MagicBeg)]) {
-			return s.validateAndSetCollections(data, length)
+			return s.validateAndSetCollections(data, length) == nil, nil
 		}
 	}
-	return errors.New("invalid roots")
+	return false, nil
 }
 
 func (s *Store) validateAndSetCollections(data []byte, length uint32) error {
